@@ -49,9 +49,23 @@ LEVEL_TEXT = ("C16_balanced, C16_chronological, C16_complete, C16_open_before_us
               "C16_emitted_items_lexical: the items of `knut transcode` satisfy the conditions whenever the journal's directives do "
               "(journal_lex_b); C16_model_text_roundtrip / C16_roundtrip_check: roundtrip_b is a theorem; C16_verdict_on_model_text: "
               "the verdict on the model's own text equals verdict_of (beancount_check ++ complete_check ++ mtm_check) on the erased "
-              "items, the objects of the theorems above; C16_model_verdict_partial: on them mtm_check finds nothing and every violation "
-              "of beancount_check is a posting violation raised by a posting of a value adjustment on a non-A/L account (F16/F16b's "
-              "Income:... account). C16_linewise_reader_refuted: the former line-wise reader rejected the correct ledger of a journal "
+              "items, the objects of the theorems above. "
+              "C16_model_verdict (full strength, hypothesis on the INPUT): for every journal of syntax-level directives that "
+              "satisfies C09's input_lex (what knut's parser guarantees: years 0000..9999, account segments and commodities non-empty "
+              "runs of letters and digits, descriptions valid UTF-8 without double quote), every V with commodity_lex_b and both "
+              "settings of the checker, if the model of the pipeline succeeds then c16_verdict_mtm on the model's text is `ok` or "
+              "the rendering of a violation with v_known_shape = true and kind unopened-valuation-account / "
+              "closed-valuation-account (F16/F16b); C16_model_verdict_cmd the same for transcode_cmd with V a run of letters and "
+              "digits; C16_model_verdict_parsed / C16_model_violations with byte-level conditions on the parsed journal instead "
+              "(journal_lex_b, Spec/BeancountAdjLex.v journal_adj_lex_b: posting accounts syntactic, commodities without space). "
+              "Pieces: C16_violations_from_adjustments (mtm_check finds nothing; every violation of beancount_check comes from a "
+              "posting of a value adjustment on a non-A/L account), C16_posting_violations_known_shape (check_posting classifies "
+              "each as the known shape: adjusted_account reads the description back, the adjusted account is open), "
+              "C16_valuate_adjustments (Valuate's position map has pairwise different keys pos_key a c; per day the adjustments "
+              "have pairwise different descriptions), C16_complete_check_finds_nothing (no lost-transaction, spurious-transaction, "
+              "duplicated-adjustment), C16_input_lexical (input_lex gives both side conditions on the parsed directives). "
+              "C16_space_in_commodity_example: with a space in a commodity (impossible for the parser) the verdict on the model's "
+              "own text is a plain `unopened`, so the second side condition is needed. C16_linewise_reader_refuted: the former line-wise reader rejected the correct ledger of a journal "
               "whose description contains a newline (knut accepts it); read_ledger now splits lines outside double-quoted strings only.")
 LEVEL_NOTE = ("Trusted: kernel, extraction, harness; the model-to-code tie is sampled (quick ~300 journals). The theorems are about the "
               "emitted items; that the text reads back to those items is proved (C16_text_roundtrip, C16_model_text_roundtrip) under "
@@ -59,10 +73,11 @@ LEVEL_NOTE = ("Trusted: kernel, extraction, harness; the model-to-code tie is sa
               "postings_syntactic, which allows a space inside an account segment: C16_space_in_account_example) and on V "
               "(commodity_lex_b); the driver evaluates the side conditions on every case and falls back to the executable test "
               "roundtrip_b only outside them (no generated case is). Amounts are read back up to Decimal.String (reread: same value); "
-              "no clause of the verdict can tell (Proofs/BeancountVerdict.v). Not proved: that the verdict on the model's text is "
-              "`ok` or F16/F16b's known shape for every journal (full statement in the comment at C16_model_verdict_partial): open are "
-              "that check_posting classifies the remaining violations as the known shape and that complete_check finds nothing; both "
-              "are evaluated per case on the binary's byte-identical output. Two repairs of the executable verdict came out of the "
+              "no clause of the verdict can tell (Proofs/BeancountVerdict.v). That the verdict on the model's text is `ok` or "
+              "F16/F16b's known shape is proved for every journal the parser can produce (C16_model_verdict; the hypothesis "
+              "input_lex is C09's, on the syntax-level directives, satisfiable: C16_witness_input_lex); the binary's output is "
+              "byte-identical to that text on every sampled case, and the verdict is evaluated on the binary's output. The model "
+              "starts from structured directives, so that the parser yields input_lex journals is C07/C09's matter. Two repairs of the executable verdict came out of the "
               "proof: multi-line descriptions (split_lines; the generator now writes them) and the order clause for ledgers of the "
               "year 0000 (bst_init, C16_order_year0_example). "
               "Side condition of the mark-to-market theorems: account names as the parser guarantees them (postings_syntactic). "
